@@ -3,6 +3,7 @@ import os
 import gzip
 import shutil
 import itertools
+import contextlib
 from .. import model, codecs, cli
 from ..runner import Result, scratch
 from ..bridge import quiet, monitor, extract
@@ -256,7 +257,14 @@ def check_chain(mtjs, fmts, dev=None):
         text = codecs.encode_tigerxml(mts, encoding=src_enc)
     path = os.path.join(d, 'f0.' + EXT[fmts[0]])
     data = text.encode(src_enc or 'utf-8')
-    if dev.get('gz'):
+    if dev.get('gz') == 'members':
+        # a gzip file of three members (cat a.gz b.gz c.gz, pigz -i, bgzip), cut at arbitrary bytes
+        path += '.gz'
+        cut = [0, len(data) // 3, 2 * len(data) // 3, len(data)]
+        with open(path, 'wb') as f:
+            for a, b in zip(cut, cut[1:]):
+                f.write(gzip.compress(data[a:b]))
+    elif dev.get('gz'):
         path += '.gz'
         with gzip.open(path, 'wb') as f:
             f.write(data)
@@ -396,6 +404,60 @@ def check_directory(mtjs_a, mtjs_b, src, dest):
                         bad('content', x)
                 except (codecs.DecodeError, IOError) as e:
                     bad('undecodable', '%s after the second run (%s): %s' % (fn, other, e))
+    return out
+
+
+def check_lockstep(srcfmt):
+    """Two conversions going on side by side in one process (a program that aligns a gold file with a system file): the
+    sources are gzipped files with the SAME file name in two directories, each larger than an I/O buffer; trees are
+    pulled from the two readers alternately and written to two destinations.  Each destination must hold its own corpus."""
+    from trees import treeinput, treeoutput
+    import io as _io
+    out = []
+    d = workdir()
+    shapes = [((1, 2), 3), (1, (2, 3)), ((1, 2), (3, 4)), (1, 2, 3)]
+    corp = {}
+    for name in ('gold', 'test'):
+        mts = []
+        for i in range(160):
+            sh = shapes[i % 4]
+            n = len(model.leaves(sh))
+            mts.append(model.simple_mt(sh, sid=i + 1, words=['%s%dw%d' % (name, i + 1, j + 1) for j in range(n)]))
+        corp[name] = mts
+        os.makedirs(os.path.join(d, name), exist_ok=True)
+        text = codecs.encode_export(mts) if srcfmt == 'export' else codecs.encode_brackets(mts)
+        with gzip.open(os.path.join(d, name, 'corpus.%s.gz' % srcfmt), 'wb') as f:
+            f.write(text.encode('utf-8'))
+    try:
+        with contextlib.redirect_stdout(_io.StringIO()), contextlib.redirect_stderr(_io.StringIO()):
+            readers = {name: getattr(treeinput, srcfmt)(os.path.join(d, name, 'corpus.%s.gz' % srcfmt), 'utf-8', quiet=True)
+                       for name in corp}
+            dests = {name: _io.StringIO() for name in corp}
+            live = dict(readers)
+            while live:
+                for name in list(live):
+                    t = next(live[name], None)
+                    if t is None:
+                        del live[name]
+                    else:
+                        treeoutput.export(t, dests[name])
+        for name in corp:
+            got = codecs.decode_export(dests[name].getvalue())
+            want = [[tk['word'] for tk in m.toks] for m in corp[name]]
+            have = [[tk['word'] for tk in m.toks] for m in got]
+            if have != want:
+                k = next((i for i, (a, b) in enumerate(zip(have, want)) if a != b), min(len(have), len(want)))
+                out.append({'kind': 'lockstep', 'where': 'two conversions side by side (%s.gz sources of the same name)' % srcfmt,
+                            'case': {'lockstep': srcfmt},
+                            'detail': 'destination of %s/corpus.%s.gz: %d sentences (expected %d); sentence %d holds %r, expected %r'
+                                      % (name, srcfmt, len(have), len(want), k + 1, have[k] if k < len(have) else None,
+                                         want[k] if k < len(want) else None),
+                            'what': 'a conversion delivers the sentences of another file converted at the same time'})
+    except Exception as e:
+        out.append({'kind': 'exception', 'where': 'two conversions side by side (%s.gz sources of the same name)' % srcfmt,
+                    'case': {'lockstep': srcfmt}, 'detail': '%s: %s' % (type(e).__name__, e),
+                    'what': 'two conversions side by side failed'})
+    shutil.rmtree(d, ignore_errors=True)
     return out
 
 
@@ -590,6 +652,8 @@ def check_trans(mtjs, combo_i):
 
 
 def check_case(case):
+    if 'lockstep' in case:
+        return check_lockstep(case['lockstep'])
     with quiet():
         if 'trans' in case:
             return check_trans(case['corpus'], case['trans'])
@@ -668,6 +732,7 @@ def run_chunk(chunk):
             for src in SRC:
                 for dest in DEST:
                     devs.append((P[:3] if src != 'brackets' else Pc[:3], [src, dest], {'gz': True}))
+                devs.append((P[:3] if src != 'brackets' else Pc[:3], [src, 'export4'], {'gz': 'members'}))
                 for enc in ('latin-1', 'utf-16'):
                     devs.append((uni, [src, 'export4'], {'gz': True, 'src_enc': enc}))
                     devs.append((uni, [src, 'tigerxml'], {'gz': True, 'src_enc': enc, 'dest_enc': enc}))
@@ -684,6 +749,8 @@ def run_chunk(chunk):
                 devs.append((Pc[:3], ['export4', dest], {'dest_opts': ['gf', 'gf_separator:0'], 'expect': 'gf', 'sep': '0'}))
             for dest in ('export3', 'brackets', 'discobrackets'):
                 take(check_gf_transfer([m.to_json() for m in Pc[:3]], dest), True, ('gf-transfer', dest))
+            for srcfmt in ('export', 'brackets'):
+                take(check_lockstep(srcfmt), True, ('lockstep', srcfmt))
             for version in (3, 4):
                 take(check_cons_columns([m.to_json() for m in P[:4]], version), True, ('cons-columns', version))
             # words with several bracket kinds (formats that can carry them as sources) and with non-ASCII spaces
